@@ -656,8 +656,15 @@ impl Scenario for Bits {
         let via_run = if self.prop == WProp::C05 && (run / 4) % 2 == 1 { Via::Word } else { Via::Bit };
         let style = STYLES[((run / 8) % STYLES.len() as u64) as usize];
         let max_actions = if tier == Tier::Quick { 30 } else { 80 };
-        let p = TypistParams { style, actions: marathon(run, rng.range(4, max_actions) as usize), stratum: ((run % 3) as u8, ((run / 3) % 16) as u8) };
+        // endurance stratum: one run in 4096 is a long session (thousands of frames) on a host
+        // whose watchdog never fires, so the bit counter runs for tens of thousands of bits
+        // without a single clear()
+        let endurance = run % 4096 == 4095;
+        let actions = if endurance { rng.range(3000, 3400) as usize } else { marathon(run, rng.range(4, max_actions) as usize) };
+        let p = TypistParams { style, actions, stratum: ((run % 3) as u8, ((run / 3) % 16) as u8) };
         let session = type_session(rng, &cfg, &p);
+        let (rate_class, rate_pct) = if endurance { (0u8, 0u64) } else { (rate_class, rate_pct) };
+        cfg.rate = rate_class;
         let mut kinds = rng.below(1 << 10) as u32;
         if kinds == 0 {
             kinds = 0x3FF;
@@ -676,7 +683,7 @@ impl Scenario for Bits {
             t = sop.t.max(last_edge + period);
             // watchdog: line idle longer than the timeout -> clear()
             let in_fault_zone = si < fault_limit && rate_pct > 0;
-            if t - last_edge > timeout && !ops.is_empty() {
+            if t - last_edge > timeout && !ops.is_empty() && !endurance {
                 if watchdog_ok || !in_fault_zone {
                     ops.push(TOp { t: last_edge + timeout, op: Op::Clear });
                 }
